@@ -362,7 +362,7 @@ pub fn run(ctx: &Ctx, findings: &Findings) -> PropReport {
             subs.push(r);
         }
     } else {
-        let n = ctx.cases(2500, 60000);
+        let n = ctx.cases(20000, 400000);
         subs.push(drive(ctx, findings, "history", RULE, n, || case_strategy(ctx.tier.pick(14, 22)), &check_case));
     }
     let _ = BTreeMap::<u8, u8>::new();
